@@ -70,6 +70,12 @@ def run(ctx):
     # the same runs as event sequences (probe, injected frame, exit) against the chunk-loop state machine: passes in order, each closed no
     # earlier than its delay after its last probe, replies inside the window printed, nothing else printed
     wt.scanrun_validate(ctx, "C16", "c16s")
+    # model-generated stimuli: every combination of at most two frames (reply to pass 1 / reply to pass 2 / not reply-shaped) arriving while
+    # pass 1 sends, early / late in its exit delay, early / late in the exit delay of pass 2; ScanRunTrace decides what had to be printed
+    gen = wt.generated_scenarios(ctx, 12 if quick else 0)
+    n5, rej = wt.run_wire(ctx, select=lambda s: s["name"].startswith("gen-"), label="c16g", focus="delay", extra=gen)
+    wt.report(ctx, "C16", rej)
+    wt.scanrun_validate(ctx, "C16", "c16gs")
     n4, rej = wt.run_wire(ctx, select=lambda s: s["expect"]["kind"] == "packet" and "chunked" in s["name"], label="c16r", focus="reply")
     wt.report(ctx, "C16", rej)
     ctx.assumptions += ["upper bound on exit: 3 s after the run context was observed cancelled",
